@@ -57,9 +57,8 @@ func checkC12(p *Program, r *Report) {
 		var lookups, others []string
 		for g := range reach {
 			r.Func(shortFn(g))
-			for _, c := range callsIn(g) {
-				h := calleeOf(c)
-				if h == nil || !inSlim(h) || inIndex(h) {
+			for _, h := range libraryTargets(p, g) {
+				if !inSlim(h) || inIndex(h) {
 					continue
 				}
 				if h == tf {
@@ -432,3 +431,31 @@ func controlC12(fx *Program, r *Report) {
 }
 
 func init() { controlFns["C12"] = controlC12 }
+
+// libraryTargets: the functions g calls statically, plus the methods it turns
+// into method values (x.M passed on as a function): a lookup handed to a
+// higher-order helper is still a lookup of g.
+func libraryTargets(p *Program, g *ssa.Function) []*ssa.Function {
+	var out []*ssa.Function
+	for _, c := range callsIn(g) {
+		if h := calleeOf(c); h != nil {
+			out = append(out, h)
+		}
+	}
+	instrsOf(g, func(_ *ssa.BasicBlock, in ssa.Instruction) {
+		mc, ok := in.(*ssa.MakeClosure)
+		if !ok {
+			return
+		}
+		fn, ok := mc.Fn.(*ssa.Function)
+		if !ok || !strings.Contains(fn.Synthetic, "bound method wrapper") {
+			return
+		}
+		if obj, ok := fn.Object().(*types.Func); ok {
+			if m := p.Prog.FuncValue(obj); m != nil {
+				out = append(out, m)
+			}
+		}
+	})
+	return out
+}
